@@ -137,6 +137,10 @@ def generate(ctx):
         ks = [rng.choice([None, b'a', b'b', b'A']) for _ in range(n)]
         if None not in ks: ks[rng.randrange(n)] = None
         cases.append(mk_case(rng, cs, ks, ['app:' + hx(b'q'), 'detl', 'size'], ['nullkey'], shapes=[0] * n))
+    # sorting needs no memory: the same call while the allocator refuses every request must sort all the same
+    for c in rng.sample([c for c in cases if c.line.startswith('sortobj')], 40 if quick else 400):
+        t = c.line.split(' ', 2); info = dict(c.info); info['tags'] = list(info['tags']) + ['starved-allocator']
+        cases.append(Case('sortobj %d %s' % (int(t[1]) + 2, t[2]), info))
     # utilities that sort internally
     upool = ['a', 'b', 'A', 'B', 'c', 'ab', '', 'k', 'K', 'z']
     for _ in range(90 if quick else 1500):
@@ -213,7 +217,7 @@ def info_of(c):
         if t[0] == 'sortobj':
             root, pos = parse_tokens(t, 2)
             def flat(n): return ['N'] + list(n[0]) + [str(len(n[1]))] + [x for ch in n[1] for x in flat(ch)]
-            return dict(c.info, cs=int(t[1]), keys=[None if ch[0][4] == '-' else ('' if ch[0][4] == '=' else ch[0][4]) for ch in root[1]],
+            return dict(c.info, cs=int(t[1]) & 1, keys=[None if ch[0][4] == '-' else ('' if ch[0][4] == '=' else ch[0][4]) for ch in root[1]],
                         members=[' '.join(flat(ch)) for ch in root[1]], ops=t[pos:])
         if t[0] == 'sortutil':
             a, pos = parse_tokens(t, 3)
